@@ -4,7 +4,7 @@ Differential monitor: the same document and history are run with the 'large' and
 recorded callback/log/step-result sequences must be equal. No reference model decides; it is only used to attribute a
 difference to the known finding (fast implements the static conflict relation) by an exact match of both traces.
 """
-import os, sys, json, collections, glob
+import os, sys, json, zlib, collections, glob
 from vf import common, chart as C, trace as T, refscxml, c01lib
 from vf.common import Check
 from vf.checks.c01 import NONTRIVIAL
@@ -67,6 +67,9 @@ def work(job):
         x = xml if xml is not None else C.render(ch, dm)
         for eng in ('large', 'fast'):
             run.append({'id': cid + ':' + eng, 'xml': x, 'engine': eng, 'hist': h, 'flags': ['novars'] if xml is not None else []})
+        if zlib.crc32(cid.encode()) % 4 == 0:
+            # no engine chosen at all: the interpreter instantiates its default, which is documented to be 'large'
+            run.append({'id': cid + ':default', 'xml': x, 'engine': 'default', 'hist': h, 'flags': ['novars'] if xml is not None else []})
     res = c01lib.run_batch(binary, run)
     out = []
     for cid, ch, h, dm, xml in built:
@@ -92,6 +95,16 @@ def work(job):
             rec['replay'] = {'xml': xml or C.render(ch, dm), 'history': h, 'stderr': (pl.get('stderr') or '') + (pf.get('stderr') or '')}
         elif a == b:
             rec['v'] = 'ok'
+            pd = res.get(cid + ':default')
+            if pd is not None and not (pd['timeout'] or pd['stepcap']):
+                rec['default_compared'] = True
+                d = norm_lines(pd['lines'])
+                if pd['crash'] or d != a:
+                    i = 0
+                    while i < min(len(a), len(d)) and a[i] == d[i]: i += 1
+                    rec['v'] = 'differ'; rec['k'] = 'default-engine-differs-from-large'
+                    rec['replay'] = {'xml': xml or C.render(ch, dm), 'history': h, 'datamodel': dm, 'first_difference_line': i, 'crash': str(pd['crash'])[:300],
+                                     'large': a[max(0, i - 6):i + 6], 'default': d[max(0, i - 6):i + 6]}
         else:
             i = 0
             while i < min(len(a), len(b)) and a[i] == b[i]: i += 1
@@ -160,6 +173,7 @@ def main(tier, replay):
     for out in common.pmap(work, jobs):
         for rec in out:
             chk.count(); verd[rec['v']] += 1; cb += rec['callbacks']
+            if rec.get('default_compared'): chk.add('runs_with_default_engine_compared', 1)
             if rec['v'] == 'diverged': continue
             if rec['nontrivial']: chk.nontrivial(rec['hash'])
             if rec['v'] == 'timeout': chk.inconc('timeout in case ' + rec['id'])
